@@ -275,8 +275,16 @@ class SSHKnownHosts:
             x509_subjects, revoked_subjects = self._match(host, addr, port)
 
         if port and not (host_keys or ca_keys or x509_certs or x509_subjects):
+            # Entries revoked for [host]:port remain revoked when falling
+            # back to a lookup without the port
+            port_revoked = (revoked_keys, revoked_certs, revoked_subjects)
+
             host_keys, ca_keys, revoked_keys, x509_certs, revoked_certs, \
                 x509_subjects, revoked_subjects = self._match(host, addr)
+
+            revoked_keys = list(revoked_keys) + list(port_revoked[0])
+            revoked_certs = list(revoked_certs) + list(port_revoked[1])
+            revoked_subjects = list(revoked_subjects) + list(port_revoked[2])
 
         return (host_keys, ca_keys, revoked_keys, x509_certs, revoked_certs,
                 x509_subjects, revoked_subjects)
